@@ -72,6 +72,30 @@ def h_mul_scalar(ctx, n, r1, r2, bounded=False):
     ctx.claim('finite', finite(ctx, [np.array([v])]))
 
 
+def h_int_dtype_cores(ctx):
+    """Hand-written tensors with cores of integer dtype: the stabilised scalar
+    product, norm and accuracy give mantissa * 2^exponent equal to the true value
+    (a symbolic real scale s on one float operand keeps the solver in the loop)."""
+    A = [np.full((1, 2, 1), 3), np.array([[[2], [5]]]), np.array([[[7], [1]]])]
+    B = [np.array([[[1], [4]]]), np.array([[[6], [2]]]), np.full((1, 2, 1), 5)]
+    toF = lambda Y: ref_full([np.array([[[ctx.const(int(v)) for v in row] for row in blk] for blk in G],
+                                       dtype=object if is_sym(ctx) else float) for G in Y])
+    FA, FB = toF(A), toF(B)
+    v, p = teneva.mul_scalar(A, B, use_stab=True)
+    ctx.claim('int_scalar_product', ctx.eq(v * pow2(ctx, p), (FA * FB).sum()))
+    z, ph = teneva.norm(A, use_stab=True)
+    sq = z * pow2(ctx, ph)
+    ctx.claim('int_norm', ctx.all_([ctx.eq(sq * sq, sumsq(FA)), ctx.ge(z, 0)]))
+    s = ctx.real('s')
+    ctx.assume(ctx.ge(s, 2))
+    ctx.assume(ctx.le(s, 4))
+    C = [G * 1. for G in A]
+    C[0] = C[0] * s
+    acc = teneva.accuracy(C, A)                  # reference tensor with integer cores: ||sA - A|| / ||A|| = s - 1
+    ctx.claim('accuracy_against_int_reference', ctx.eq(acc, s - 1))
+    ctx.claim('cores_keep_their_dtype', all(G.dtype.kind == 'i' for G in A + B))
+
+
 def h_norm(ctx, n, r):
     Y = ctx.tt('y', n, r)
     z, ph = teneva.norm(Y, use_stab=True)
@@ -251,6 +275,15 @@ def h_concrete_small_norm(ctx):
             Zs = teneva.truncate(Y, e, is_eigh=is_eigh, use_stab=True)
             ok = ok and teneva.ranks(Zs).tolist() == teneva.ranks(Zp).tolist()
             ok = ok and np.linalg.norm(teneva.full(Zs) - F) <= e * np.linalg.norm(F) * (1 + 1e-9)
+    # coarse accuracies on generic tensors: the budget is split over the bonds in both modes
+    for d, e2 in [(3, 0.3), (4, 0.2), (4, 0.45), (5, 0.1), (3, 0.05)]:
+        Y = teneva.rand([4] * d, 3, seed=20 + d)
+        F = teneva.full(Y)
+        for is_eigh in (True, False):
+            Zp = teneva.truncate(Y, e2, is_eigh=is_eigh)
+            Zs = teneva.truncate(Y, e2, is_eigh=is_eigh, use_stab=True)
+            ok = ok and teneva.ranks(Zs).tolist() == teneva.ranks(Zp).tolist()
+            ok = ok and np.linalg.norm(teneva.full(Zs) - F) <= e2 * np.linalg.norm(F) * (1 + 1e-9)
     ctx.claim('stabilised_rounding_equals_plain', bool(ok))
 
 
@@ -270,6 +303,7 @@ def instances(tier):
         out.append({'func': 'h_accuracy', 'params': {'n': n, 'r': r, 'signs': sg}})
     out.append({'func': 'h_accuracy', 'params': {'n': [1, 1], 'r': 1, 'signs': False, 'tiny_last': True}})
     out.append({'func': 'h_accuracy_repeat', 'params': {'n': [1, 1]}})
+    out.append({'func': 'h_int_dtype_cores', 'params': {}})
     out.append({'func': 'h_accuracy_dense', 'params': {'shape': [2, 2]}})
     for d, n in ([(3, 2)] if quick else [(3, 2), (4, 2)]):
         for k in range(d):
